@@ -980,7 +980,11 @@ pub fn c14_e2e(bin: &str, seed: u64, sessions: u64) -> E2eResult {
                 let b = new_invoice(&mut rng, Some(2_000_000), Hints::None);
                 s.preimages.insert(hex::encode(b.hash), b.preimage);
                 let t0 = Instant::now();
-                s.send_doc(&hook("b", tramp_request(&b, 99, 2_010_000, 2_010_000, height + 1100, height)), 0);
+                // HTLC ids are per channel: in half of the sessions B's HTLC has the same id as A's
+                // first one, on another channel
+                let mut breq = tramp_request(&b, if i % 2 == 0 { 99 } else if many { 1000 } else { 0 }, 2_010_000, 2_010_000, height + 1100, height);
+                breq["htlc"]["short_channel_id"] = json!("7x7x7");
+                s.send_doc(&hook("b", breq), 0);
                 let wres = s.wait_or_ping(|s| s.reply("b").is_some(), Duration::from_secs(10));
                 if wres == Wait::TooSlow {
                     acc.lock().unwrap().inconclusive.push("session too slow to judge".into());
@@ -1344,6 +1348,37 @@ pub fn late_reply_sessions(bin: &str, seed: u64, sessions: u64) -> E2eResult {
                 s.preimages.insert(h1.clone(), inv1.preimage);
                 s.preimages.insert(h2.clone(), inv2.preimage);
                 s.hashes = vec![h1.clone(), h2.clone()];
+                if i % 3 == 2 {
+                    // variant: both payments lose the connection after pay was accepted and again on
+                    // the first waitsendpay while the part settles, so each learns its preimage from
+                    // the completed-sendpays list, H2 right after H1 (nothing of H1's list may be
+                    // served to H2)
+                    s.stuck.push((h1.clone(), "pay-drop-wait-drop"));
+                    s.stuck.push((h2.clone(), "pay-drop-wait-drop"));
+                    s.send_doc(&hook("x1", tramp_request(&inv1, 1, 1_005_000, 1_005_000, height + 1100, height)), 0);
+                    let w1 = s.wait_or_ping(|s| s.reply("x1").is_some(), Duration::from_secs(15));
+                    let mut breq = tramp_request(&inv2, 1, 1_005_000, 1_005_000, height + 1100, height);
+                    breq["htlc"]["short_channel_id"] = json!("7x7x7");
+                    s.send_doc(&hook("x2", breq), 0);
+                    let w2 = s.wait_or_ping(|s| s.reply("x2").is_some(), Duration::from_secs(15));
+                    let mut g = acc.lock().unwrap();
+                    g.e("R01a-e2e-late", 1);
+                    g.class("two payments learning their preimage from the completed-sendpays list back to back".into());
+                    if w1 == Wait::TooSlow || w2 == Wait::TooSlow {
+                        g.inconclusive.push("late-reply session too slow to judge".into());
+                    }
+                    for (id, inv) in [("x1", &inv1), ("x2", &inv2)] {
+                        if let Some((k, res)) = s.reply(id).and_then(result_of) {
+                            let key = res["payment_key"].as_str().unwrap_or("").to_string();
+                            if k == "resolve" && key != hex::encode(inv.preimage) {
+                                g.v("R01a|e2e-settled-with-another-payments-answer", format!("HTLC {id} of {} resolved with {key}, which is not its preimage (the other payment's is {})", hex::encode(inv.hash), hex::encode(if id == "x1" { inv2.preimage } else { inv1.preimage })));
+                            }
+                        }
+                    }
+                    drop(g);
+                    s.finish();
+                    continue;
+                }
                 s.stuck.push((h1.clone(), "two-parts"));
                 s.stuck.push((h2.clone(), "waitsendpay"));
                 // variants: how many other calls happen between H1's settlement and H2's wait
@@ -1399,4 +1434,122 @@ pub fn late_reply_sessions(bin: &str, seed: u64, sessions: u64) -> E2eResult {
     });
     let a = acc.into_inner().unwrap();
     E2eResult { coverage: json!({"sessions": sessions, "classes": a.classes, "samples": a.samples}), violations: a.viol, evals: a.evals, inconclusive: a.inconclusive }
+}
+
+
+/// What reaches lightningd's `pay` through the real rpc.rs: (a) an amountless invoice with a
+/// sender-declared amount that is not a multiple of 1000 msat: pay.amount_msat must be exactly that
+/// amount; (b) the first pay answered with a JSON-RPC error (-32602, -1, 205): whatever pay the
+/// plugin issues afterwards must still carry maxdelay within the bound and a maxfee within the
+/// budget; (c) every pay: maxdelay <= min(policy delta, expiry - height - safety delta), maxfee <=
+/// held - amount, bolt11 = the invoice.
+pub fn pay_params_sessions(bin: &str, seed: u64, sessions: u64) -> E2eResult {
+    let acc = Mutex::new(Acc::new());
+    let next = std::sync::atomic::AtomicU64::new(0);
+    std::thread::scope(|sc| {
+        for _ in 0..sessions.min(6).max(1) {
+            sc.spawn(|| loop {
+                let i = next.fetch_add(1, std::sync::atomic::Ordering::Relaxed);
+                if i >= sessions {
+                    break;
+                }
+                let mut rng = Rng::new(mix(seed, 0x9a9 + i));
+                let height = 6000u32;
+                let (cd, pd) = (34u32, 1008u32);
+                let mut s = match Session::start(bin, &json!({"trampoline-mpp-timeout": 3}), false, height, None) {
+                    Ok((Some(s), _)) => s,
+                    _ => {
+                        acc.lock().unwrap().inconclusive.push("plugin did not start".into());
+                        continue;
+                    }
+                };
+                let amountless = i % 2 == 0;
+                let declared = 1_000_000u64 + if amountless { 1 + rng.below(998) } else { 0 };
+                let inv = new_invoice(&mut rng, if amountless { None } else { Some(declared) }, Hints::None);
+                let hx = hex::encode(inv.hash);
+                s.preimages.insert(hx.clone(), inv.preimage);
+                s.hashes = vec![hx.clone()];
+                let err_code: Option<i64> = match i % 4 { 2 => Some(-32602), 3 => Some(*rng.pick(&[-1i64, 205, 210])), _ => None };
+                if let Some(c) = err_code {
+                    s.pay_error_once = Some(c);
+                }
+                let held = declared + declared / 200 + 10;
+                let expiry = height + if i % 3 == 0 { pd + 10 } else { 1100 };
+                let mut req = tramp_request(&inv, 1, held, held, expiry, height);
+                if amountless {
+                    // the sender-declared amount travels in the metadata's amount record
+                    req = tramp_request_amt(&inv, 1, held, held, expiry, height, declared);
+                }
+                s.send_doc(&hook("q", req), 0);
+                let wres = s.wait_or_ping(|s| s.reply("q").is_some(), Duration::from_secs(15));
+                // a retry of the set after a failed first pay
+                if err_code.is_some() && s.reply("q").and_then(result_of).map(|x| x.0).as_deref() == Some("fail") {
+                    let mut req2 = if amountless { tramp_request_amt(&inv, 2, held, held, expiry, height, declared) } else { tramp_request(&inv, 2, held, held, expiry, height) };
+                    req2["htlc"]["id"] = json!(2);
+                    s.send_doc(&hook("q2", req2), 0);
+                    s.wait_or_ping(|s| s.reply("q2").is_some(), Duration::from_secs(15));
+                }
+                let mut g = acc.lock().unwrap();
+                if wres == Wait::TooSlow {
+                    g.inconclusive.push("pay-parameter session too slow to judge".into());
+                }
+                g.class(format!("amountless={amountless} first pay error={err_code:?} tight expiry={}", i % 3 == 0));
+                for p in &s.pays_seen {
+                    g.e("R03c-e2e", 1);
+                    g.e("R04a-e2e", 1);
+                    let amt = p.get("amount_msat").and_then(|v| v.as_u64().or_else(|| v.as_str().and_then(|x| x.trim_end_matches("msat").parse().ok())));
+                    if amountless && amt != Some(declared) {
+                        g.v("R03c|e2e-amount-differs-from-declared", format!("amountless invoice, sender declared {declared} msat, pay carries amount_msat {:?}", p.get("amount_msat")));
+                    }
+                    if !amountless && p.get("amount_msat").map(|v| !v.is_null()).unwrap_or(false) {
+                        g.v("R03c|e2e-amount-given-for-fixed-invoice", format!("pay carries amount_msat {:?} for an invoice with an amount", p.get("amount_msat")));
+                    }
+                    if p.get("bolt11").and_then(|b| b.as_str()) != Some(inv.facts.bolt11.as_str()) {
+                        g.v("R03c|e2e-bolt11-differs", "pay carries another invoice string".into());
+                    }
+                    let bound = ((expiry - height).saturating_sub(cd)).min(pd) as u64;
+                    match p.get("maxdelay").and_then(|v| v.as_u64()) {
+                        None => g.v("R04a|e2e-maxdelay-missing", format!("pay without maxdelay (first pay error {err_code:?}): {}", p.to_string().chars().take(300).collect::<String>())),
+                        Some(md) if md > bound => g.v("R04a|e2e-maxdelay-too-large", format!("maxdelay {md} > {bound}")),
+                        _ => {}
+                    }
+                    let mf = p.get("maxfee").and_then(|v| v.as_u64().or_else(|| v.as_str().and_then(|x| x.trim_end_matches("msat").parse().ok())));
+                    g.e("R03b-e2e", 1);
+                    match mf {
+                        None => g.v("R03b|e2e-maxfee-missing", format!("pay without maxfee: {}", p.to_string().chars().take(300).collect::<String>())),
+                        Some(m) if m > held - declared => g.v("R03b|e2e-maxfee-exceeds-budget", format!("maxfee {m} > held {held} - amount {declared}")),
+                        _ => {}
+                    }
+                }
+                if g.samples.len() < 3 {
+                    g.samples.push(json!({"amountless": amountless, "declared": declared, "first_pay_error": err_code, "answer": s.reply("q").map(|r| r["result"].clone()), "pays": s.pays_seen.iter().map(|p| json!({"amount_msat": p.get("amount_msat"), "maxdelay": p.get("maxdelay"), "maxfee": p.get("maxfee")})).collect::<Vec<_>>()}));
+                }
+                drop(g);
+                s.finish();
+            });
+        }
+    });
+    let a = acc.into_inner().unwrap();
+    E2eResult { coverage: json!({"sessions": sessions, "classes": a.classes, "samples": a.samples}), violations: a.viol, evals: a.evals, inconclusive: a.inconclusive }
+}
+
+pub fn tramp_request_amt(inv: &Inv, id: u64, amount_msat: u64, total: u64, expiry: u32, height: u32, declared: u64) -> Value {
+    let spec = HtlcSpec {
+        uid: 0,
+        scid: "9x9x9".into(),
+        htlc_id: id,
+        htlc_hash: inv.hash,
+        amount_msat,
+        cltv_expiry: expiry,
+        forward_msat: Some(amount_msat),
+        total_msat: Some(total),
+        onion_scid: None,
+        other_recs: vec![(2, tu64(amount_msat)), (4, tu64(expiry as u64))],
+        metadata: Metadata::Tramp { invoice: inv.facts.clone(), amt: AmtField::Bytes(tu64(declared)), extra_before: vec![], extra_after: vec![] },
+        raw_payload_hex: None,
+        label: RefLabel::Continue,
+        gate: Gate::None,
+        hash_hex_override: None,
+    };
+    request_json(&spec, height)
 }
